@@ -895,16 +895,15 @@ func NewFromJSON(ctx context.Context, services coreiface.CoreAPI, identity *iden
 
 	// TODO: need to verify the entries with 'key'
 
-	if fetchOptions.IO == nil {
-		if logOptions.IO != nil {
-			fetchOptions.IO = logOptions.IO
+	if logOptions.IO == nil {
+		if fetchOptions.IO != nil {
+			logOptions.IO = fetchOptions.IO
 		} else {
 			io, err := cbor.IO(&entry.Entry{}, &entry.LamportClock{})
 			if err != nil {
 				return nil, err
 			}
 
-			fetchOptions.IO = io
 			logOptions.IO = io
 		}
 	}
